@@ -202,6 +202,7 @@ type FilePool struct {
 
 // Get file content from the filepool
 func (fp *FilePool) Get(fd *FileDescriptior) []byte {
+	verifYield("pool.get", fd.logID, fd.FilePath)
 	fp.mux.Lock()
 	if fp.list == nil {
 		fp.list = make(map[string][]byte)
@@ -222,6 +223,7 @@ func (fp *FilePool) Get(fd *FileDescriptior) []byte {
 		fp.list[fd.FilePath] = data
 	}
 	defer fp.mux.Unlock()
+	verifPoolResult(fd.FilePath, fp.list[fd.FilePath])
 	return fp.list[fd.FilePath]
 }
 
